@@ -384,6 +384,9 @@ func (tm *typeMismatch) text() string {
 			els = append([]string{`Undef`}, els...)
 		}
 		switch len(els) {
+		case 0:
+			// A Variant without types has no instances
+			es = shortName(vt)
 		case 1:
 			es = els[0]
 		case 2:
@@ -863,7 +866,15 @@ func describe(expected px.Type, actual px.Type, path []*pathElement) []mismatch 
 	if unresolved != nil {
 		return []mismatch{newUnresolvedTypeReference(path, unresolved.TypeString())}
 	}
-	return internalDescribe(px.Normalize(expected), expected, actual, path)
+	if px.IsAssignable(expected, actual) {
+		return NoMismatch
+	}
+	ds := internalDescribe(px.Normalize(expected), expected, actual, path)
+	if len(ds) == 0 {
+		// Not assignable but no detail could be established. Report the types
+		ds = []mismatch{newTypeMismatch(path, expected, actual)}
+	}
+	return ds
 }
 
 func internalDescribe(expected px.Type, original, actual px.Type, path []*pathElement) []mismatch {
@@ -896,6 +907,9 @@ func internalDescribe(expected px.Type, original, actual px.Type, path []*pathEl
 }
 
 func describeVariantType(expected *types.VariantType, original, actual px.Type, path []*pathElement) []mismatch {
+	if px.IsAssignable(expected, actual) {
+		return NoMismatch
+	}
 	vs := make([]mismatch, 0, len(expected.Types()))
 	ts := expected.Types()
 	if _, ok := original.(*types.OptionalType); ok {
